@@ -3,6 +3,9 @@
 -/
 import Driver.Proto
 import Dirk.Spec.Slashing
+import Dirk.Props.C05
+import Dirk.Props.C06
+import Dirk.Spec.Perms
 
 namespace Driver
 open Dirk
@@ -41,6 +44,9 @@ def exportLine (db : Db) : String :=
 def manyStr (ps : List Pos) : String := " ".intercalate (ps.map posStr)
 
 def splitItems (s : String) : List (List String) := (s.splitOn ";").map (·.splitOn ",")
+
+/-- source address field: `-` / `.` = absent -/
+def ipOf (s : String) : Option String := if s == "-" || s == "." then some "" else unhexStr s
 
 def bad (st : DState) (l : String) : DState × Option String := (st, some ("bad-op " ++ l))
 
@@ -113,7 +119,7 @@ def dstep (st : DState) (line : String) : DState × Option String :=
       ({ st with inst := s' }, some (posStr p))
     | _, _, _, _ => bad st line
   | ["sign", c, ip, addr, d, f] =>
-    match unhexStr c, unhexStr ip, parseAddr addr, parseSign (d.splitOn ","), parseFaults f with
+    match unhexStr c, ipOf ip, parseAddr addr, parseSign (d.splitOn ","), parseFaults f with
     | some c, some ip, some a, some d, some f =>
       let (s', p) := signGeneric st.inst c ip a d (f.signFail.contains 0)
       ({ st with inst := s' }, some (posStr p))
@@ -125,7 +131,7 @@ def dstep (st : DState) (line : String) : DState × Option String :=
         | some a, some d => some (a, d)
         | _, _ => none
       | _ => none)
-    match unhexStr c, unhexStr ip, parseFaults f, its with
+    match unhexStr c, ipOf ip, parseFaults f, its with
     | some c, some ip, some f, some its =>
       let (s', ps) := multisign st.inst c ip its f.signFail
       ({ st with inst := s' }, some (manyStr ps))
@@ -146,6 +152,37 @@ def dstep (st : DState) (line : String) : DState × Option String :=
       let clash := st.jprops.any (fun e => e.1 == k && decide (d.slot ≤ e.2.slot))
       ({ st with jprops := st.jprops ++ [(k, d)] }, some (if clash then "NOT-INCREASING" else "ok"))
     | _, _ => bad st line
+  -- judge C07: the implementation answered `res` to Check(client, account, op): does the Lean
+  -- specification (first bearing item, whole-name matching) say the same?
+  | ["jcheck", c, acct, op, res] =>
+    match unhexStr c, unhexStr acct, unhexStr op with
+    | some c, some acct, some op =>
+      let want := Spec.firstBearing st.perms c acct op
+      (st, some (if want == (res == "1") then "ok" else if want then "WRONGLY-REFUSED" else "WRONGLY-ALLOWED"))
+    | _, _, _ => bad st line
+  -- judge C05: a generic signature was observed for (ip, domain): allowed by the Lean predicate?
+  | ["jsign", ip, dom] =>
+    match ipOf ip, unhexOpt dom with
+    | some ip, some dom =>
+      let d := dom.getD []
+      let ok := decide (prefix4 d ≠ domAttester) && decide (prefix4 d ≠ domProposer) &&
+        (decide (prefix4 d ≠ domExit) || (decide (ip ≠ "") && st.adminIPs.contains ip))
+      (st, some (if ok then "ok" else "FORBIDDEN-DOMAIN"))
+    | _, _ => bad st line
+  -- judge C05: an attestation / proposal signature was observed under this domain
+  | ["jdom", kind, dom] =>
+    match unhexOpt dom with
+    | some dom =>
+      let d := dom.getD []
+      let ok := if kind == "att" then decide (prefix4 d = domAttester) else decide (prefix4 d = domProposer)
+      (st, some (if ok then "ok" else "WRONG-ENDPOINT"))
+    | none => bad st line
+  -- judge C06: the fail-closed biconditional on one observed response position
+  | ["jiff", state, hasSig] =>
+    let p : Pos := { res := if state == "S" then .succeeded else if state == "D" then .denied
+                            else if state == "F" then .failed else .unknown,
+                     root := if hasSig == "1" then some [] else none }
+    (st, some (if decide (p.root ≠ none ↔ p.res = .succeeded) then "ok" else "NOT-CLOSED"))
   | _ => bad st line
 
 end Driver
